@@ -149,7 +149,16 @@ func (c modelCfg) build() *builder.RuleBuilder {
 
 // buildGroups performs the grouped build (used under hx.EnvRuns so that every map-iteration order
 // inside the builds is enumerated).
-func (c modelCfg) buildGroups() *builder.RuleBuilder {
+func (c modelCfg) buildGroups() (rb *builder.RuleBuilder, failure string) {
+	defer func() {
+		if r := recover(); r != nil {
+			failure = fmt.Sprintf("the build panicked: %v", r)
+		}
+	}()
+	return c.buildGroups0(), ""
+}
+
+func (c modelCfg) buildGroups0() *builder.RuleBuilder {
 	specs := c.specs()
 	text := func(g []int, pre bool) string {
 		var sb strings.Builder
